@@ -96,6 +96,40 @@ fn main() {
                 }
             }
         }
+        // (1b) larger arrays with tied keys and loosely-equal adjacent numbers: orderings and
+        // conversions that only differ beyond small sizes must still agree across builds
+        if i % 5 == 0 {
+            let n = 21 + rng.below(30);
+            let recs: Vec<Value> = (0..n)
+                .map(|k| {
+                    let (kk, ss, ff) = (rng.below(4), ["a", "b", "B", "é"][rng.below(4)], [1.0, 1.5][rng.below(2)]);
+                    serde_json::json!({"id": k, "k": kk, "s": ss, "f": ff})
+                })
+                .collect();
+            let nums: Vec<Value> = (0..n)
+                .map(|_| match rng.below(6) {
+                    0 => serde_json::json!(1),
+                    1 => serde_json::json!(1.0),
+                    2 => serde_json::json!(0),
+                    3 => serde_json::json!(0.0),
+                    4 => serde_json::json!(9007199254740992u64),
+                    _ => serde_json::json!(9007199254740993u64),
+                })
+                .collect();
+            let big = serde_json::json!({"recs": recs, "nums": nums, "obj": {"z": [1, 1.0], "a": [0.3, 0.30000000000000004]}});
+            let exprs = ["sort_by(recs, &k)[*].id", "sort_by(recs, &s)[*].id", "sort(nums)", "nums", "max_by(recs, &k).id", "min_by(recs, &f).id", "reverse(sort_by(recs, &f))[*].id",
+                         "recs[?k == `1`].id", "obj", "to_string(nums)", "sort_by(recs, &to_string(k))[*].id", "map(&to_string(@), nums)"];
+            let text = exprs[rng.below(exprs.len())];
+            let e = jmespath::compile(text).unwrap();
+            let var = var_of(&big);
+            let rc = Rcvar::new(var.clone());
+            let _ = writeln!(out, "{}.big.value\t{}", i, outcome(e.search(big.clone())));
+            let _ = writeln!(out, "{}.big.value_ref\t{}", i, outcome(e.search(&big)));
+            let _ = writeln!(out, "{}.big.variable\t{}", i, outcome(e.search(var.clone())));
+            let _ = writeln!(out, "{}.big.variable_ref\t{}", i, outcome(e.search(&var)));
+            let _ = writeln!(out, "{}.big.rcvar\t{}", i, outcome(e.search(rc.clone())));
+            let _ = writeln!(out, "{}.big.rcvar_ref\t{}", i, outcome(e.search(&rc)));
+        }
         // (2) scalar inputs of every specially-handled type
         let se = jmespath::compile(scalar_exprs[rng.below(scalar_exprs.len())]).unwrap();
         let pick = |rng: &mut Rng, min: i128, max: i128| -> i128 {
